@@ -246,6 +246,11 @@ def build_tu(vu, work, canary=None):
                     e.rewrites.append("R3 range-for -> index loop x%d" % k)
                 if kind in ("extract", "whole", "block"):
                     rule_r7(e, typedef_table(hdr))
+                if "r15" in pos:
+                    # R15: `("literal" + s` -> `(std::string("literal") + s` (the front end does not find operator+ for a char array)
+                    e.text, k = re.subn(r'\(("[^"\n]*") \+ ', r'(std::string(\1) + ', e.text)
+                    if k:
+                        e.rewrites.append("R15 literal + string -> std::string(literal) + string x%d" % k)
                 if "mono" in kv:
                     # R4: //@extract f.I fn mono=Element=int|A::B  -> one non-template overload per type
                     par, types = kv["mono"].split("=", 1)
